@@ -296,9 +296,9 @@ def replay_valid(payload):
         for v in shuffled(sorted(m["cpd"]), rng):
             c = m["cpd"][v]
             ps = c["parents"]
-            cpd = TabularCPD(vn[v], len(c["states"][v]), [[x / c["den"] for x in row] for row in c["tab"]],
+            cpd = TabularCPD(vn[v], c["dcard"][v], [[x / c["den"] for x in row] for row in c["tab"]],
                              evidence=[vn[p] for p in ps] if ps else None,
-                             evidence_card=[len(c["states"][p]) for p in ps] if ps else None,
+                             evidence_card=[c["dcard"][p] for p in ps] if ps else None,
                              state_names={vn[x]: list(c["states"][x]) for x in [v] + ps})
             bn.add_cpds(cpd)
         ncalls += 1
